@@ -136,6 +136,7 @@ PROPS['C14']={
   {'name':'keyid_prefix','module':'harness.C14','cls':'KeyIdPrefix','quick':{},'thorough':{},'validate':{'quick':4,'thorough':8}},
   {'name':'link_file_names','module':'harness.C14','cls':'LinkFileNames','quick':{},'thorough':{},'validate':{'quick':8,'thorough':24}},
   {'name':'rules_non_normal','module':'harness.C14','cls':'RulesNonNormal','quick':{},'thorough':{}},
+  {'name':'rules_match_prefix_edges','module':'harness.C14','cls':'RulesMatchPrefixEdges','quick':{},'thorough':{},'validate':{'quick':8,'thorough':24}},
   {'name':'rules_long_paths','module':'harness.C14','cls':'RulesLongPaths','quick':{'lens':[255,4097]},'thorough':{'lens':[255,4000,4097,70000]},'validate':{'quick':6,'thorough':16}},
   {'name':'importers','module':'harness.C14','cls':'Importers','quick':{},'thorough':{}},
   {'name':'pae_prefix','module':'harness.C20','cls':'UnpackTotal','quick':{'n':6,'shape':'prefix'},'thorough':{'n':9,'shape':'prefix'}},
@@ -165,6 +166,7 @@ PROPS['C19']={
  'assumptions':WIRE_ASSUME+['chrono text <-> instant through the ghost-string model (C06); strum\'s EnumIter-generated iterators run from MIR'],
  'obligations':[
    {'name':'statement_consistency','module':'harness.C19','cls':'StatementConsistency','quick':{},'thorough':{},'validate':{'quick':8,'thorough':24}},
+   {'name':'statement_hybrids','module':'harness.C19','cls':'StatementHybrids','quick':{},'thorough':{},'validate':{'quick':18,'thorough':18}},
    {'name':'roundtrip_predicate','module':'harness.C19','cls':'WireC19','quick':{'what':'predicate','nbytes':1},'thorough':{'what':'predicate','nbytes':2},'validate':{'quick':8,'thorough':24}},
    {'name':'roundtrip_statement','module':'harness.C19','cls':'WireC19','quick':{'what':'statement','nbytes':1},'thorough':{'what':'statement','nbytes':2},'validate':{'quick':8,'thorough':24}},
    {'name':'from_meta','module':'harness.C19','cls':'FromMeta','quick':{},'thorough':{}},
